@@ -1084,6 +1084,17 @@ def hook_store(P, E, prefixes=None):
                     and hits(b.operand_prov(c.args[0])):
                 stores.append((c.bb, from_callback(c.args[1])))
         good = [bb for (bb, ok) in stores if ok]
+        # a closure wrapped around the callback passes every notification on: it calls the captured callback on every path
+        for k in b.calls:
+            if atom(k) == "fw_new" and k.args:
+                cl = k.arg_closure(0)
+                wb = P.bodies.get(cl) if cl else None
+                if wb is not None:
+                    inv = [c.bb for c in wb.calls if c.indirect or (c.trait or "").startswith("std::ops::Fn")]
+                    if not inv or Effects.path_avoiding(wb, wb.returns, inv) is not None:
+                        r.violate((nid, "stored wrapper does not always call the callback"),
+                                  "%s stores a closure that does not call the callback it was given on every path: notifications are "
+                                  "filtered before they reach it (%s)" % (nid.split("::")[-1], why), body=wb)
         r.instance((nid, "stores its callback"), True, "stores into %s at %s" % (field, stores))
         if not good or Effects.path_avoiding(b, b.returns, good) is not None:
             r.violate((nid, "callback not stored"),
